@@ -202,6 +202,9 @@ func genC10(r *rngT, n int, tier string) {
 		sc := evScenario{dn: dn, key: key, streams: streams, mode: mode, writers: r.Intn(3), seed: r.Int63(), slowCons: r.bool()}
 		pre, post, note := runEvScenario(sc)
 		stat("c10-" + mode)
+		if note != "" {
+			n = 0 // a stalled node: one failing scenario is enough, do not wait for the timeouts of the others
+		}
 		for c := 0; c < k; c++ {
 			ks := "-"
 			if key != nil {
